@@ -103,7 +103,24 @@ fn generic(tier: Tier, st: &mut Stats) {
             let per_axis: Vec<Vec<(f64, bool)>> = grid.iter().map(|g| coords(g)).collect();
             // all query points: for n <= 2 the full product, beyond that each axis varied against two fixed settings of the others
             let mut points: Vec<(Vec<f64>, bool)> = vec![];
-            if n <= 2 {
+            // the full product of the per-axis coordinates up to three dimensions (and for four in the thorough tier); four
+            // dimensions in the quick tier: the product of a reduced list per axis (two knots, a midpoint, a quarter point of
+            // another cell, one point outside) - points on a grid line in some dimensions and off it, at different relative
+            // positions, in the others are part of every product
+            let per_axis: Vec<Vec<(f64, bool)>> = if n == 4 && tier == Tier::Quick {
+                per_axis
+                    .iter()
+                    .zip(grid.iter())
+                    .map(|(pa, g)| {
+                        let k = g.len();
+                        // pa = knots (k), then (midpoint, quarter) per cell, then four outside points
+                        vec![pa[0], pa[k - 1], pa[k], pa[(k + 3).min(pa.len() - 5)], pa[pa.len() - 2]]
+                    })
+                    .collect()
+            } else {
+                per_axis
+            };
+            if n <= 4 {
                 let mut idx = vec![0usize; n];
                 loop {
                     let p: Vec<f64> = (0..n).map(|i| per_axis[i][idx[i]].0).collect();
@@ -181,8 +198,14 @@ fn generic(tier: Tier, st: &mut Stats) {
                     st.evaluations += 1;
                     st.transitions += 1;
                     let _ = inside;
-                    let a = fx.interpolate(p, &Strategy::Linear);
-                    let b = nd.interpolate(p, &Strategy::Linear);
+                    let (a, b) = match (guarded(|| fx.interpolate(p, &Strategy::Linear)), guarded(|| nd.interpolate(p, &Strategy::Linear))) {
+                        (Ok(a), Ok(b)) => (a, b),
+                        (a, b) => {
+                            let msg = format!("{:?} / {:?}", a.err(), b.err());
+                            st.violation(&format!("interp{}d.fixed_vs_nd", n), "no_panic", n as u64, || msg.clone(), || json!({"kind": "generic_agreement", "grid": grid, "point": p}));
+                            continue;
+                        }
+                    };
                     match (a, b) {
                         (Ok(a), Ok(b)) if close(a, b, 1e-9) => st.pass("interpolators_agree_on_same_data"),
                         (a, b) => st.violation(&format!("interp{}d.fixed_vs_nd", n), "interpolators_agree_on_same_data", n as u64, || format!("{:?} vs {:?}", a, b), || json!({"kind": "generic_agreement", "grid": grid, "point": p})),
